@@ -27,6 +27,8 @@ MIND = [0.0, 0.5, -0.3]
 
 
 def types(dim, ph):
+    if dim == "2x":  # strongly disparate radii: a tiny droplet between two big overlapping ones
+        return [([x + ph, y], r) for x in (0.5, 2.2, 4.1) for y in (0.5, 2.2, 4.1) for r in (0.01, 2.0)]
     if dim == 1:
         return [([p + ph], r) for p in (0.4, 1.5, 2.7, 3.9, 5.2) for r in (0.4, 0.7, 1.2)]
     if dim == 2:
@@ -35,19 +37,20 @@ def types(dim, ph):
 
 
 def metrics(dim):
-    L = {1: 6.0, 2: 5.0, 3: 4.0}[dim]
-    n = int(L)
+    # non-cubic boxes: every axis has its own period, so a mix-up of per-axis lengths changes minimal-image distances
+    shape = {1: [6], 2: [5, 7], 3: [4, 5, 6], "2x": [5, 7]}[dim]
     out = [None]
-    masks = {1: [(True,), (False,)], 2: [(True, True), (True, False), (False, True), (False, False)], 3: [(True, True, True), (False, True, False)]}[dim]
+    masks = {1: [(True,), (False,)], 2: [(True, True), (True, False), (False, True), (False, False)],
+             3: [(True, True, True), (False, True, False), (True, False, True), (False, False, True)], "2x": [(True, True)]}[dim]
     for m in masks:
-        out.append({"kind": "cart", "shape": [n] * dim, "dx": [1.0] * dim, "origin": [0.0] * dim, "periodic": list(m)})
+        out.append({"kind": "cart", "shape": list(shape), "dx": [1.0] * len(shape), "origin": [0.0] * len(shape), "periodic": list(m)})
     return out
 
 
 def blocks(tier, seed):
     ph = [0.0, 0.05, 0.11][seed % 3]
     out = []
-    for dim in (1, 2, 3):
+    for dim in (1, 2, 3, "2x"):
         nmax = 4 if (tier == "thorough" and dim == 1) else 3
         for gi, g in enumerate(metrics(dim)):
             for md in MIND:
